@@ -4,5 +4,6 @@ CONSTANTS
   MaxPrefixes = 1
   MaxLen = 4
   KindMode = "all"
+  MaxAlias = 0
 INVARIANTS Theorems Emit
 CHECK_DEADLOCK FALSE
